@@ -208,7 +208,11 @@ func c13(w *World) {
 	// ---- the cause ----
 	localInitiated := false
 	tCause := time.Now()
+	// from here on the run has a fresh step budget, far above anything the remaining workload can use
+	// (at most 3 x 400 failing sends and the timers' ticks during S): exhausting it means something spins
 	w.SpinKey = role + "/" + cause
+	w.Sched.FreshStepBudget(400000)
+	w.Sched.ChargeSpinning(2000, 50*time.Millisecond) // a bounded busy loop (until a deadline fires) must be able to end
 	switch cause {
 	case "peer-eof":
 		sc.P.C.CloseNow()
